@@ -230,6 +230,19 @@ CHECKS["C20"] = dict(
     modelled="KerberosProxy.Handler, decode/encode, forward/awaitReply (hand transcription of the repaired code); gofork asn1 beyond "
              "this message shape, gokrb5's config parser and KDC ordering, sockets and timers are exercised only; wall-clock bounds measured.")
 
+CHECKS["C10"] = dict(
+    text="PARTIAL. The index and slice operations of the client-facing byte handlers are modelled as partial operations that "
+         "panic when out of range, each guarded exactly by the guards the table regenerated from the source shows in front of "
+         "it. Theorems: with those guards readHeader, DecodeUTF16, getAuthPayload and the KDC proxy's UDP leg never panic for "
+         "any input and compute what the models of the other properties compute; without a guard an input panics (refuted "
+         "variants, so the statements are not vacuous); every slice or index expression in those functions is a classified "
+         "one; in every reachable gateway state an attached inbound legacy channel has its outbound channel; what one tunnel is "
+         "served is independent of every other client's input. The real functions, the real handler and the real binary (TLS "
+         "on/off x buffer tuning) are driven with hostile inputs, each followed by a liveness probe and a log scan.",
+    design="7/C10", technique="Coq proof (partial operations, guards from regenerated site table, invariant over attach orders) + hostile-input correspondence and liveness probes",
+    modelled="guarded sites of readHeader/DecodeUTF16/getAuthPayload/kdcproxy.forward and legacy attach order; reflection in "
+             "setSendReceiveBuffers, go-ntlm parsers, net/http, websocket library and the scheduler are exercised only.")
+
 NOT_YET = {}
 
 
